@@ -15,6 +15,7 @@ open XotModel.Props
 #print axioms C08_bulk_is_history
 #print axioms C08_parse_bridge
 #print axioms C08_parse_registrations
+#print axioms C08_parse_registrations_inv
 #print axioms C08_parse_tree
 #print axioms C08_parse_places
 #print axioms C08_parse_capacity_needed
